@@ -714,4 +714,7 @@ WITNESSES = [
      "old": "\t\t\t((struct pdu_end_of_data_v1 *)pdu)->refresh_interval = lrtr_convert_long(\n\t\t\t\ttarget_byte_order, ((struct pdu_end_of_data_v1 *)pdu)->refresh_interval);\n", "new": ""},
     {"id": "C14.w15-reply-to-error-report", "rule": "C14.R6", "file": PK,
      "old": "\t\tif (rtr_get_pdu_type(erroneous_pdu) == ERROR) {", "new": "\t\tif (rtr_get_pdu_type(erroneous_pdu) == ERROR && error == CORRUPT_DATA) {"},
+    {"id": "C14.w-send-retried-after-interruption", "rule": "C14.R1", "file": PK,
+     "old": "\tconst int rtval = tr_send_all(rtr_socket->tr_socket, pdu_converted, len, RTR_SEND_TIMEOUT);\n",
+     "new": "\tint rtval;\n\n\tdo {\n\t\trtval = tr_send_all(rtr_socket->tr_socket, pdu_converted, len, RTR_SEND_TIMEOUT);\n\t} while (rtval == TR_INTR);\n"},
 ]
